@@ -15,6 +15,7 @@ import (
 
 	"golang.org/x/sys/unix"
 
+	"github.com/dgraph-io/badger/v4/vhook"
 	"github.com/dgraph-io/badger/v4/y"
 )
 
@@ -76,6 +77,7 @@ func (guard *directoryLockGuard) release() error {
 	if !guard.readOnly {
 		// It's important that we remove the pid file first.
 		err = os.Remove(guard.path)
+		vhook.IO("remove", guard.path, 0, 0)
 	}
 
 	if closeErr := guard.f.Close(); err == nil {
@@ -104,5 +106,6 @@ func syncDir(dir string) error {
 	if err != nil {
 		return y.Wrapf(err, "While syncing directory: %s.", dir)
 	}
+	vhook.IO("dirsync", dir, 0, 0)
 	return y.Wrapf(closeErr, "While closing directory: %s.", dir)
 }
